@@ -33,6 +33,7 @@ Record digest := mkdigest {
   g_nbackendroom : N; g_nroom : N; g_nuser : N; g_nsession : N;
   g_mcuopen : N;
   g_mcupending : N;
+  g_counts : list N;     (* per configured backend: sessions counted against its limit (Backend.Len()) *)
 }.
 
 (* ---- equality tests ---- *)
@@ -181,7 +182,9 @@ Definition digest_of (h : hub) : digest :=
            (N.of_nat (length (filter (fun e => is_client_sess (snd e) && negb (N.eqb (snd e).(s_user) 0)) h.(h_sessions))))
            (N.of_nat (length h.(h_sessions)))
            (N.of_nat (length h.(h_mcuopen)))
-           (N.of_nat (length h.(h_mcupending))).
+           (N.of_nat (length h.(h_mcupending)))
+           (map (fun b => N.of_nat (length (match aget h.(h_counted) b with Some l => l | None => [] end)))
+                (map N.of_nat (seq 0 (N.to_nat h.(h_nb))))).
 
 Definition digest_match (a b : digest) : bool :=
   mset_eqb sd_eqb a.(g_sessions) b.(g_sessions) &&
@@ -193,7 +196,8 @@ Definition digest_match (a b : digest) : bool :=
   N.eqb a.(g_expect) b.(g_expect) &&
   N.eqb a.(g_nbackendroom) b.(g_nbackendroom) && N.eqb a.(g_nroom) b.(g_nroom) &&
   N.eqb a.(g_nuser) b.(g_nuser) && N.eqb a.(g_nsession) b.(g_nsession) &&
-  N.eqb a.(g_mcuopen) b.(g_mcuopen) && N.eqb a.(g_mcupending) b.(g_mcupending).
+  N.eqb a.(g_mcuopen) b.(g_mcuopen) && N.eqb a.(g_mcupending) b.(g_mcupending) &&
+  list_eqb N.eqb a.(g_counts) b.(g_counts).
 
 (* which part of the digest differs (for the report): 1..15 *)
 Definition digest_diff (a b : digest) : N :=
@@ -212,7 +216,8 @@ Definition digest_diff (a b : digest) : N :=
   else if negb (N.eqb a.(g_nuser) b.(g_nuser)) then 13
   else if negb (N.eqb a.(g_nsession) b.(g_nsession)) then 14
   else if negb (N.eqb a.(g_mcuopen) b.(g_mcuopen)) then 15
-  else if negb (N.eqb a.(g_mcupending) b.(g_mcupending)) then 16 else 0.
+  else if negb (N.eqb a.(g_mcupending) b.(g_mcupending)) then 16
+  else if negb (list_eqb N.eqb a.(g_counts) b.(g_counts)) then 17 else 0.
 
 (* ---- cases ---- *)
 Definition trace := list (op * obs * digest).
